@@ -214,6 +214,8 @@ def explore(E, con, fi, res, body_runner=None):
             res.engine_errors.append((label, "z3: %s\n%s" % (ze, traceback.format_exc())))
             outcome = "engine-error"
         res.paths_by_outcome[outcome] = res.paths_by_outcome.get(outcome, 0) + 1
+        if os.environ.get("VERIF_DEBUG_EVENTS"):
+            print("PATH", label, outcome, ctx.decisions, [(k, [z3.simplify(a).sexpr()[:40] for a in e.children()[1:4]]) for k, e in (ctx.events or [])])
         for n in ctx.notes:
             if n not in res.notes:
                 res.notes.append(n)
